@@ -873,3 +873,10 @@ mod test {
         }
     }
 }
+
+// Verification hook: only with `--features verif-hook` in a test build. Gives an external
+// harness access to the `*_impl` functions on `proc_macro2` streams.
+#[cfg(all(test, feature = "verif-hook"))]
+mod verif_hook {
+    include!(env!("SYLVIA_VERIF_HARNESS"));
+}
